@@ -40,7 +40,7 @@ a loop. '''
 from psyclone.core import AccessType, VariablesAccessInfo
 from psyclone.psyGen import Transformation
 from psyclone.psyir.nodes import (ArrayReference, Assignment, BinaryOperation,
-                                  Call, CodeBlock, Loop, Reference)
+                                  Call, CodeBlock, Loop, Reference, Return)
 from psyclone.psyir.transformations.transformation_error \
     import TransformationError
 
@@ -218,6 +218,12 @@ class ReplaceInductionVariablesTrans(Transformation):
             assignment = node.loop_body.children[indx]
             # Only handle assignments, ignore if statements etc
             if not isinstance(assignment, Assignment):
+                if assignment.walk((CodeBlock, Return)):
+                    # This statement may transfer control out of the
+                    # iteration (RETURN, or an EXIT/CYCLE/GOTO held in a
+                    # CodeBlock) so any later assignment is not executed
+                    # on every iteration and cannot be replaced.
+                    break
                 indx += 1
                 continue
 
